@@ -22,7 +22,11 @@ EmitPair(x, y) ==
   /\ \A op \in Ops : PrintT(ToJson([id |-> CaseId(PairCase(op, x, "lit", y, "lit")), cs |-> PairCase(op, x, "lit", y, "lit")]))
   /\ IF x # 0 /\ y # 0
      THEN LET f == ExtraForms(x, y) IN
-          \A op \in ExtraOps : PrintT(ToJson([id |-> CaseId(PairCase(op, x, f[1], y, f[2])), cs |-> PairCase(op, x, f[1], y, f[2])]))
+          /\ \A op \in ExtraOps : PrintT(ToJson([id |-> CaseId(PairCase(op, x, f[1], y, f[2])), cs |-> PairCase(op, x, f[1], y, f[2])]))
+          \* both operands FHIR elements (values of one family: equal values in different representations meet here)
+          /\ IF SameFamily(PoolV(x), PoolV(y)) /\ f # <<"elem", "elem">>
+             THEN \A op \in {"=", "!=", "<="} : PrintT(ToJson([id |-> CaseId(PairCase(op, x, "elem", y, "elem")), cs |-> PairCase(op, x, "elem", y, "elem")]))
+             ELSE TRUE
      ELSE TRUE
 
 Init == a \in 0..NPool /\ b = 0 /\ ph = "pairs" /\ EmitPair(a, 0)
